@@ -45,6 +45,9 @@ def case_text(case) -> str:
     song = None
     if case.get("res_text") is not None:
         song = [f"Resolution = {case['res_text']}"]
+    if case.get("song_extra"):
+        # (further [Song] lines after the Resolution line: the first line that defines a field is the one that counts)
+        song = (song or [f"Resolution = {case['res']}"]) + list(case["song_extra"])
     return chart_text(res=case["res"], song=song, sync=sync, events=events, tracks=tracks)
 
 
